@@ -253,6 +253,11 @@ func (f *frame) havocTo(from *hstate, names map[string]bool) {
 		a1 := vc.lookup(f.st, "alloc", allocSort)
 		if a0 != a1 {
 			f.assume(fmt.Sprintf("(forall ((r Int)) (! (=> (select %s r) (select %s r)) :pattern ((select %s r))))", a0, a1, a1))
+			// ground instances for the references the proof keeps coming back to (parameters, results of calls):
+			// they spare the solver the chain of instantiations through every intermediate allocation state
+			for _, r := range vc.pinned {
+				f.assume(implies(sx("select", a0, r), sx("select", a1, r)))
+			}
 		}
 	}
 }
